@@ -5,7 +5,7 @@
 # VERIF_REPO, prints the verdict line and removes the copy.
 set -u
 V=$(cd "$(dirname "$0")/.." && pwd)
-ID=$1; RUNS=${2:-3000}; shift; shift || true
+ID=$1; RUNS=${2:-0}; shift; shift || true
 D=$V/seeded/$ID
 PROP=$(python3 -c "import json;print(json.load(open('$D/meta.json'))['breaks_property'])")
 S=$(mktemp -d /var/tmp/seeded-XXXXXX)
